@@ -263,7 +263,7 @@ def run_scenarios(pid, scenarios, seed, gh_exe, extra_builds=(), scope=None):
             else:
                 # transitions leaving a state that was only reached through a failed
                 # transition cannot be executed; without any failure this is a tooling fault
-                if w["orphan_transitions"] and not w["failures"]:
+                if w["orphan_transitions"] and not w["failures"] and not w.get("histories_left_after_edge_divergence"):
                     raise vf.Infra("walk of %s left %d transitions unexecuted" % (scn.name, w["orphan_transitions"]))
                 for p, note in zip(w["replays"], w["fail_notes"]):
                     violations.append({"replay": p, "what": note[:300]})
